@@ -301,6 +301,19 @@ Proof.
   destruct (is_AL (p_acc x)); destruct (is_AL (p_acc y)); inversion H1; inversion H2; subst; exact Hxy.
 Qed.
 
+Lemma check_fixed_stage_ok s ds s' ds' :
+  Forall day_ok ds -> process_days check_proc_fixed s ds = ROk (s', ds') -> Forall day_ok ds'.
+Proof.
+  intros Hds H.
+  refine (proj2 (process_days_ok check_proc_fixed (fun _ => True) _ _ _ _ _ _ _ _ ds s s' ds' I Hds H));
+    cbn [check_proc_fixed pr_day_start pr_price pr_open pr_txn pr_posting pr_balance pr_close pr_day_end]; try discriminate; try (intros; exact I).
+  intros f s0 t x y s1 x' s2 y' Hf _ Hxy H1 H2. injection Hf as <-. split; [exact I|].
+  unfold ck_posting_cb in *.
+  destruct (negb (is_open s0 (p_acc x))); try discriminate.
+  destruct (negb (is_open s1 (p_acc y))); try discriminate.
+  destruct (is_AL (p_acc x)); destruct (is_AL (p_acc y)); inversion H1; inversion H2; subst; exact Hxy.
+Qed.
+
 Lemma prices_stage_ok v s ds s' ds' :
   Forall day_ok ds -> process_days (compute_prices_proc v) s ds = ROk (s', ds') -> Forall day_ok ds'.
 Proof.
